@@ -152,6 +152,8 @@ func (w *World) positionWriterFuncs() []*ssa.Function {
 
 // freshMapIn: receiver value resolves (through single-store cells and closure bindings) to a map created
 // by CreateConcurrentSwissMap in the enclosing source function.
+var depthFresh int
+
 func freshMapIn(v ssa.Value, fn *ssa.Function) bool {
 	for i := 0; i < 8; i++ {
 		v = unwrap(v)
@@ -168,6 +170,25 @@ func freshMapIn(v ssa.Value, fn *ssa.Function) bool {
 			continue
 		case *ssa.UnOp:
 			switch a := x.X.(type) {
+			case *ssa.FieldAddr:
+				// a field of a carrier: an unexported struct of the module whose field is only ever set where the carrier is
+				// built, from a map that is fresh there (`&restorer{offsets: offsets}` handed to Range as a method value)
+				f := fieldOfAddr(a)
+				if f == nil || f.Exported() || curWorld == nil || depthFresh > 2 {
+					return false
+				}
+				stores := curWorld.fieldStores(f)
+				if len(stores) == 0 {
+					return false
+				}
+				depthFresh++
+				defer func() { depthFresh-- }()
+				for _, st := range stores {
+					if rootAlloc(st.Store.Addr) == nil || !freshMapIn(st.Store.Val, st.Fn) {
+						return false
+					}
+				}
+				return true
 			case *ssa.Alloc:
 				s, ok := singleStore(a)
 				if !ok {
@@ -338,7 +359,16 @@ func (w *World) implsOf(ifaceRel, ifaceName, method string) []*ssa.Function {
 			for _, t := range []types.Type{types.NewPointer(n), n} {
 				if types.Implements(t, it) {
 					if sel := w.Prog.MethodSets.MethodSet(t).Lookup(n.Obj().Pkg(), method); sel != nil {
-						if f := w.Prog.MethodValue(sel); f != nil && f.Blocks != nil && f.Synthetic == "" {
+						f := w.Prog.MethodValue(sel)
+						if f != nil && f.Synthetic != "" {
+							// a value-receiver method seen through the pointer method set: the declared method
+							if obj, isFn := sel.Obj().(*types.Func); isFn && len(sel.Index()) == 1 {
+								if d := w.Prog.FuncValue(obj); d != nil && d.Blocks != nil && d.Synthetic == "" {
+									f = d
+								}
+							}
+						}
+						if f != nil && f.Blocks != nil && f.Synthetic == "" {
 							// a proven pass-through of a layer type is not an implementation of its own: C20.R19 judges it (the
 							// read-only metadata wrapper is a layer the rules know and inspect themselves)
 							if n.Obj().Name() != "readMetadata" && w.isExactPassThrough(f, ifaceName) {
@@ -416,4 +446,130 @@ func (w *World) serialCloseField() (name string, data *types.Named) {
 		}
 	}
 	return "streamEndNotSupportedData", w.NamedType("stream", "streamEndNotSupportedData")
+}
+
+// funcTableOf: v is an element of a package-level slice of the module that is assigned once, by its package initialiser,
+// from a literal of functions or capture-free function literals — the functions of that table, in order.
+func (w *World) funcTableOf(v ssa.Value) []*ssa.Function {
+	var g *ssa.Global
+	x := unwrap(v)
+	for i := 0; i < 6 && g == nil; i++ {
+		switch y := x.(type) {
+		case *ssa.UnOp:
+			if gg, ok := y.X.(*ssa.Global); ok {
+				g = gg
+			} else {
+				x = y.X
+			}
+		case *ssa.IndexAddr:
+			x = y.X
+		case *ssa.Index:
+			x = y.X
+		case *ssa.Extract: // range over the slice: next(range(table))
+			x = y.Tuple
+		case *ssa.Next:
+			x = y.Iter
+		case *ssa.Range:
+			x = y.X
+		default:
+			return nil
+		}
+	}
+	if g == nil || g.Pkg == nil || !strings.HasPrefix(g.Pkg.Pkg.Path(), modPath) {
+		return nil
+	}
+	if _, isSlice := g.Type().(*types.Pointer).Elem().Underlying().(*types.Slice); !isSlice {
+		return nil
+	}
+	var stores []*ssa.Store
+	for _, fn := range w.ModFuncs {
+		allInstrs(fn, func(in ssa.Instruction) {
+			if st, ok := in.(*ssa.Store); ok && st.Addr == ssa.Value(g) {
+				stores = append(stores, st)
+			}
+		})
+	}
+	if len(stores) != 1 || stores[0].Parent().Name() != "init" {
+		return nil
+	}
+	sl, ok := stores[0].Val.(*ssa.Slice)
+	if !ok {
+		return nil
+	}
+	arr, ok := sl.X.(*ssa.Alloc)
+	if !ok {
+		return nil
+	}
+	at, ok := arr.Type().(*types.Pointer).Elem().Underlying().(*types.Array)
+	if !ok {
+		return nil
+	}
+	out := make([]*ssa.Function, int(at.Len()))
+	for _, r := range *arr.Referrers() {
+		ia, ok := r.(*ssa.IndexAddr)
+		if !ok {
+			continue
+		}
+		idx, ok := ia.Index.(*ssa.Const)
+		if !ok {
+			return nil
+		}
+		for _, r2 := range *ia.Referrers() {
+			if st, ok := r2.(*ssa.Store); ok && st.Addr == ssa.Value(ia) {
+				val := st.Val
+				if ct, isCT := val.(*ssa.ChangeType); isCT { // a named function type
+					val = ct.X
+				}
+				switch e := val.(type) {
+				case *ssa.Function:
+					out[int(idx.Int64())] = e
+				case *ssa.MakeClosure:
+					if f, isF := e.Fn.(*ssa.Function); isF && len(e.Bindings) == 0 {
+						out[int(idx.Int64())] = f
+					}
+				}
+			}
+		}
+	}
+	for _, f := range out {
+		if f == nil {
+			return nil
+		}
+	}
+	return out
+}
+
+// pwInputs: the formal inputs of a position writer by type — the vBucket id (uint16), the offset (*models.Offset), the
+// dirty flag (bool) — whether they are parameters or fields of a parameter bundle.
+type pwInputs struct{ vb, off, dirty *vparam }
+
+func (w *World) writerInputs(pw *ssa.Function) pwInputs {
+	var r pwInputs
+	for _, v := range vparams(pw) {
+		v := v
+		switch {
+		case w.isOffsetPtr(v.Type()):
+			r.off = &v
+		case isUint16(v.Type()):
+			r.vb = &v
+		case isBool(v.Type()):
+			r.dirty = &v
+		}
+	}
+	return r
+}
+
+// writerArgs: what a call of the position writer hands in for (vbID, offset, dirty).
+func (w *World) writerArgs(cc *ssa.CallCommon, pw *ssa.Function) (vb, off, dirty ssa.Value) {
+	in := w.writerInputs(pw)
+	if in.vb != nil {
+		vb = argOfVParam(cc, pw, *in.vb)
+	}
+	if in.off != nil {
+		off = argOfVParam(cc, pw, *in.off)
+	}
+	if in.dirty != nil {
+		dirty = argOfVParam(cc, pw, *in.dirty)
+	}
+	return
 }
